@@ -559,6 +559,7 @@ func (e *codecEngine) Exec(line string) (obs string, viol string) {
 			m = reflect.Zero(reflect.TypeOf(inst)).Interface()
 		}
 		var werr error
+		var wbytes []byte
 		func() {
 			defer func() {
 				if r := recover(); r != nil {
@@ -566,7 +567,9 @@ func (e *codecEngine) Exec(line string) (obs string, viol string) {
 					viol = fmt.Sprintf("PANIC: WriteMessage(%s %T) panics instead of returning an error: %v", map[string]string{"wnil": "nil pointer", "wzero": "zero value of"}[tk[0]], inst, r)
 				}
 			}()
-			werr = messages.NewWriter().WriteMessage(m, stubCodec{})
+			wr := messages.NewWriter()
+			werr = wr.WriteMessage(m, stubCodec{})
+			wbytes = append([]byte(nil), wr.Bytes()...)
 		}()
 		if obs == "panic" {
 			return obs, viol
@@ -577,7 +580,14 @@ func (e *codecEngine) Exec(line string) (obs string, viol string) {
 			}
 			return "err", ""
 		}
-		return "nopanic", ""
+		// no error means a faithful encoding: what was written decodes again, completely
+		if werr == nil {
+			rd := messages.NewReader(wbytes)
+			if _, derr := rd.ReadMessage(stubCodec{}); derr != nil || rd.RemainingSize() != 0 {
+				viol = fmt.Sprintf("ENCODE-SILENT: WriteMessage(zero value of %T) returned no error, but the %d bytes it produced do not decode (%v, %d left): an unencodable value must be reported", inst, len(wbytes), derr, rd.RemainingSize())
+			}
+		}
+		return "nopanic", viol
 	case "rfl", "rflinto":
 		if len(tk) < 3 {
 			return "bad-op", ""
